@@ -15,3 +15,10 @@ e3("C19", "Bounded symbolic execution of the real wildcard-bin code through the 
           "matching values and that exactly the reference bin is incremented. str2bin is compared with an independent parse on all "
           "strings up to the stated length (enumeration).",
    "symbolic execution of the real Python code with z3 bit-vectors (all sample/pattern values), enumerated masks/strings", "DESIGN.md section 6 C19")
+
+e1("C01", "Translation validation of the real lowering against an independent SystemVerilog-style reference: for each enumerated program "
+          "and each concrete assignment of the non-random fields, z3 proves for ALL values of the random fields (widths up to 64) that the "
+          "hard formula the library actually asserted implies every active constraint and the enum domains; the values finally returned are "
+          "evaluated in the reference formula and range-checked. Bounded in the program dimension (families listed in the evidence).",
+   "translation validation: z3 equivalence/implication between the mirrored Boolector formula and a reference lowering; replay via pinned inline constraints",
+   "DESIGN.md section 6 C01")
